@@ -124,7 +124,8 @@ CALLS = {"e.set_run_id": set_run_id, "e.clear_run_id": clear_run_id, "e._apply_s
          "e.emitter.emit_on_runstate_change": noop, "e.cancel_all_commands": noop, "e.write_process_image": noop, "e._stop_interpreter": noop,
          "self.fail": noop, "self.set_complete": noop, "super().cancel": noop, "float": float_of, "time.time": float_of,
          "sys_state.get_value": tag_get("ghost_sys_state"), "sys_state.set_value": tag_set("ghost_sys_state"),
-         "self._emitter.emit_on_method_error": noop}
+         "self._emitter.emit_on_method_error": noop, "self._apply_safe_state": apply_safe_state,
+         "self._emitter.emit_on_runstate_change": noop}
 for name, fld in TAGS.items():
     CALLS[f"e._system_tags[SystemTagName.{name}].set_value"] = tag_set(fld)
     CALLS[f"self._system_tags[SystemTagName.{name}].set_value"] = tag_set(fld)
